@@ -42,7 +42,7 @@ CLANG_FLAGS = ["-std=c++2b", "-fopenmp", "-fsyntax-only", "-DFMT_HEADER_ONLY=1",
 # build configurations that change the code inside a region (preprocessor conditionals inside the function)
 CONFIGS = [("", []), ("fib", ["-DTAPKEE_USE_FIBONACCI_HEAP"])]
 KNOWN_CONFIG_MACROS = {"TAPKEE_USE_PRIORITY_QUEUE", "TAPKEE_USE_FIBONACCI_HEAP"}
-TRANSLATOR_VERSION = "7"
+TRANSLATOR_VERSION = "8"
 
 
 class Unsupported(Exception):
@@ -839,7 +839,7 @@ class Walker:
             if op in ("++", "--"):
                 R(kids[0], "RW", dims)
             elif op == "*":
-                R(kids[0], mode, (("opaque",),) + tuple(dims))
+                self.pointee(kids[0], mode, (("opaque",),) + tuple(dims), probe)
             elif op == "&":
                 # the address escapes into a pointer; uses through a private pointer are followed by `alias`
                 R(kids[0], mode if mode != "R" else "R", (("opaque",),) + tuple(dims))
@@ -874,11 +874,14 @@ class Walker:
             return
         if k == "ArraySubscriptExpr":
             E(kids[1], "R")
-            R(kids[0], mode, (("sub", (kids[1],)),) + tuple(dims))
+            self.pointee(kids[0], mode, (("sub", (kids[1],)),) + tuple(dims), probe)
             return
         if k in ("MemberExpr", "CXXDependentScopeMemberExpr"):
             if kids:
-                R(kids[0], mode, (("opaque",),) + tuple(dims))
+                if n.get("isArrow"):
+                    self.pointee(kids[0], mode, (("opaque",),) + tuple(dims), probe)
+                else:
+                    R(kids[0], mode, (("opaque",),) + tuple(dims))
             return
         if k == "CXXOperatorCallExpr":
             return self.operator_call(n, mode, dims, probe)
@@ -899,11 +902,31 @@ class Walker:
             return
         if k == "CXXDeleteExpr":
             for c in kids:
-                E(c, "RW")
+                self.pointee(c, "RW", (("opaque",),), None)
             return
         if k == "CXXPseudoDestructorExpr":
             return
         self.fail(n, "unsupported expression kind %s" % k)
+
+    def pointee(self, n, mode, dims, probe):
+        """access THROUGH a pointer-valued expression (`p[i]`, `*p`, `p->m`, `delete[] p`): the pointer is loaded
+        (an rvalue), the access of interest is to the memory it designates, named after the pointer variable"""
+        m = mode
+        while n.get("kind") in ("ImplicitCastExpr", "ParenExpr") and len(self.kids(n)) == 1:
+            if n.get("kind") == "ImplicitCastExpr" and n.get("castKind") not in (
+                    "LValueToRValue", "ArrayToPointerDecay", "NoOp", "BitCast"):
+                break
+            n = self.kids(n)[0]
+        t = qual(n).strip()
+        if re.match(r"const\b[^*]*\*", t) and m != "R":
+            m = "R"         # pointer to const
+        if n.get("kind") == "BinaryOperator" and n.get("opcode") in ("+", "-"):
+            a, b = self.kids(n)
+            pa = "*" in qual(a) or "[" in qual(a)
+            ptr, off = (a, b) if pa else (b, a)
+            self.expr(off, "R", (), None)
+            return self.pointee(ptr, m, (("opaque",),) + tuple(dims[1:]), probe)
+        self.expr(n, m, dims, probe)
 
     def callee_decl(self, c):
         c0 = c
